@@ -328,7 +328,7 @@ Qed.
 (* decimal -> decimal (any direction), FULL strength: for every value of the source decimal type and
    every pair of scales whose difference is at most the precision of the wider type, the cast IS the
    specification: the exactly scaled / half-away rounded value when it fits DECIMAL(p2,s2), an
-   error otherwise.  (Before PENDING-1 only the soundness half held, see Old.decimal_to_decimal_narrow.) *)
+   error otherwise.  (Before 770f0ed44 only the soundness half held, see Old.decimal_to_decimal_narrow.) *)
 Lemma rescale_exact_or_error : forall oc d1 d2 s1 p2 s2 v,
   std_dty d1 -> std_dty d2 -> Z.abs v < 10 ^ d_maxp d1 -> 0 <= p2 <= d_maxp d2 ->
   Z.abs (s1 - s2) <= maxp_w d1 d2 ->
@@ -466,7 +466,7 @@ Proof.
   - exfalso. exact (rescale_body_no_panic w (s1 - s2) amt (if 0 <? s1 - s2 then Z.quot amt 2 else 0) v Ex).
 Qed.
 
-(* the two witnesses of the defects repaired by PENDING-1 now succeed ... *)
+(* the two witnesses of the defects repaired by 770f0ed44 now succeed ... *)
 Example rescale_sat : decimal_to_decimal true D64 D64 3 5 2 12345 = Ok 1235 /\ decimal_to_decimal true D64 D64 3 5 2 (-12345) = Ok (-1235)
   /\ decimal_to_decimal true D64 D64 2 3 1 12345 = Err
   /\ decimal_to_decimal true D128 D64 5 18 0 9999999999999999999 = Ok 100000000000000
@@ -730,7 +730,7 @@ Example float_to_decimal_sat :
   /\ float_to_decimal true F32 D64 3 1 1120403456 = Err.                      (* 100f32 as DECIMAL(3,1) *)
 Proof. vm_compute. repeat split; reflexivity. Qed.
 
-(* the defect repaired by PENDING-1: scale factor and product in the SOURCE float type *)
+(* the defect repaired by 770f0ed44: scale factor and product in the SOURCE float type *)
 Lemma old_float_to_decimal_source_format :
   Old.float_to_decimal_srcfmt true F32 D64 18 9 1092091904 = Ok 9500000256
   /\ float_decimal_spec F32 18 9 1092091904 = Ok 9500000000
